@@ -991,7 +991,8 @@ def check_property(pid, tier="quick", seed=0):
         wit = None
         try:
             from vxreplay import search_witness
-            wit = search_witness(pid, None, tier)
+            skip = [k["replay_match"] for k in open_known.values() if k.get("replay_match")]
+            wit = search_witness(pid, None, tier, skip=skip)
         except Exception as e:
             undecided.append("replay search failed: %s" % e)
         if wit is not None:
